@@ -204,7 +204,7 @@ def sethref(out):
             raise Refused("_setHref: handler does more than a never-raising warning: " + u[:80])
     if len(tr.orelse) != 1:
         raise Refused("_setHref: else branch of the try")
-    expect(tr.orelse[0], "self.hrefFound = True", "_setHref success flag")
+    expect(tr.orelse[0], "hrefFound = True", "_setHref success flag")
     # statements of the function around the try
     guard = [n for n in fn.body if isinstance(n, ast.If)]
     if len(guard) != 1:
@@ -212,13 +212,20 @@ def sethref(out):
     g = guard[0]
     expect(g.test, "href and self.parentStyleSheet", "_setHref load condition")
     top = [ast.unparse(x) for x in fn.body]
-    for need in ("self._href = href", "self.hrefFound = False", "self._styleSheet = importedSheet",
+    # (the imported sheet is loaded first, then href / seq / hrefFound / styleSheet are committed)
+    for need in ("self._href = href", "hrefFound = False", "self.hrefFound = hrefFound", "self._styleSheet = importedSheet",
                  "importedSheet = css_parser.css.CSSStyleSheet(media=self.media, ownerRule=self, title=self.name)"):
-        if need not in top:
-            raise Refused("_setHref: statement `%s` not found at function level" % need)
-    if not (top.index("self.hrefFound = False") < fn.body.index(g) < top.index("self._styleSheet = importedSheet")):
-        raise Refused("_setHref: order of hrefFound reset / load / styleSheet assignment")
-    join = "fullhref = urljoin(parentHref, self.href)"
+        if top.count(need) != 1:
+            raise Refused("_setHref: statement `%s` not found exactly once at function level" % need)
+    gi = fn.body.index(g)
+    if not (top.index("importedSheet = css_parser.css.CSSStyleSheet(media=self.media, ownerRule=self, title=self.name)")
+            < gi and top.index("hrefFound = False") < gi < top.index("self._href = href")
+            and gi < top.index("self.hrefFound = hrefFound") and gi < top.index("self._styleSheet = importedSheet")):
+        raise Refused("_setHref: order of hrefFound reset / load / commit of href, hrefFound, styleSheet")
+    for st_ in fn.body[gi + 1:]:
+        if isinstance(st_, (ast.Try, ast.If, ast.Raise, ast.Return)):
+            raise Refused("_setHref: control flow after the load (line %d)" % st_.lineno)
+    join = "fullhref = urljoin(parentHref, href)"
     pre = [ast.unparse(x) for x in g.body if x is not tr]
     inside = [ast.unparse(x) for x in tr.body]
     if join in pre and g.body.index(tr) > pre.index(join):
